@@ -215,8 +215,10 @@ pub fn gen_props(rng: &mut Rng) -> Vec<PropSpec> {
 }
 
 pub fn gen_addr(rng: &mut Rng) -> String {
-    match rng.below(4) {
+    match rng.below(5) {
         0 => format!("[2001:db8::{:x}]:{}", rng.range(1, 0xffff), rng.range(1024, 65535)),
+        // an IPv4 client as a dual-stack listener reports it
+        4 => format!("[::ffff:{}.{}.{}.{}]:{}", rng.range(1, 223), rng.below(256), rng.below(256), rng.range(1, 254), rng.range(1024, 65535)),
         _ => format!(
             "{}.{}.{}.{}:{}",
             rng.range(1, 223),
